@@ -20,11 +20,11 @@ impl SkimItem for NthItem {
     fn get_matching_ranges(&self) -> Option<&[(usize, usize)]> { self.ranges.as_deref() }
 }
 
-const TCH: [char; 12] = ['a', 'b', 'c', 'A', 'B', ' ', '-', '中', 'x', '\t', 'd', 'é'];
+const TCH: [char; 16] = ['a', 'b', 'c', 'A', 'B', ' ', '-', '中', 'x', '\t', 'd', 'é', 'É', '\u{130}', '\u{212a}', 'k'];
 const QCH: [char; 12] = ['a', 'b', 'A', 'c', 'x', '中', '\'', '^', '$', '!', '\\', ' '];
 
 fn gen_text(r: &mut Rng) -> String { (0..r.below(12)).map(|_| *r.pick(&TCH)).collect() }
-fn gen_body(r: &mut Rng) -> String { (0..r.below(4)).map(|_| *r.pick(&['a', 'b', 'A', 'c', 'x', '中', 'B'])).collect() }
+fn gen_body(r: &mut Rng) -> String { (0..r.below(4)).map(|_| *r.pick(&['a', 'b', 'A', 'c', 'x', '中', 'B', 'É', 'é', 'k'])).collect() }
 fn gen_term(r: &mut Rng) -> String {
     let b = gen_body(r);
     match r.below(16) {
@@ -175,7 +175,15 @@ fn main() {
                 let verdict = got.is_some();
                 if focus == "C03" && !regex_mode && ranges.is_none() {
                     let d = doc_term(&query, &text, exact, case, algo);
-                    if !query.contains(' ') && !query.contains('|') && !query.contains('\\') && d.verdict != verdict {
+                    let cased_non_ascii = |s: &str| s.chars().any(|c| !c.is_ascii() && (c.is_uppercase() || c.is_lowercase()));
+                    let simple = !query.contains(' ') && !query.contains('|') && !query.contains('\\');
+                    let non_ascii_case = cased_non_ascii(&query) || cased_non_ascii(&text);
+                    // with cased non-ASCII letters around, the implementation may fold more than ASCII (exact terms fold
+                    // Unicode), never less: a match under ASCII-only folding must still be a match (non-inverted terms)
+                    let one_way = non_ascii_case && !query.trim_start_matches('\'').starts_with('!') && d.verdict && !verdict && d.known.is_none();
+                    if simple && one_way {
+                        bad = Some((format!("term {:?} does not match text {:?}; ignoring the case of ASCII letters only it already matches", query, text), None));
+                    } else if simple && !non_ascii_case && d.verdict != verdict {
                         bad = Some((format!("term {:?} {} text {:?}; the documented rule says it {}", query, if verdict { "matches" } else { "does not match" }, text, if d.verdict { "matches" } else { "does not match" }), d.known.map(|s| s.to_string())));
                     }
                 }
@@ -200,6 +208,22 @@ fn main() {
                         }
                         if want != verdict { bad = Some((format!("query {:?} {} text {:?}, but OR over its {} alternatives of AND over their terms gives {}", query, if verdict { "matches" } else { "does not match" }, text, nalts, want), None)); }
                     }
+                }
+                if focus == "C04" && !regex_mode && id % 8 == 0 {
+                    // the verdict of one shared engine must not depend on what other threads are matching
+                    let eng = mk(&query);
+                    let texts: Vec<String> = (0..48).map(|k| { let mut rr = Rng::for_case(a.seed ^ 0x5151, id * 64 + k); gen_text(&mut rr) }).collect();
+                    let base: Vec<bool> = texts.iter().map(|t| eng.match_item(Arc::new(NthItem { text: t.clone(), ranges: None })).is_some()).collect();
+                    let diverged = std::thread::scope(|sc| {
+                        let hs: Vec<_> = (0..8).map(|th| { let (eng, texts, base) = (&eng, &texts, &base); sc.spawn(move || {
+                            let mut bad = None;
+                            for round in 0..6 { for k in 0..texts.len() { let j = (k * 7 + th * 5 + round) % texts.len();
+                                let v = eng.match_item(Arc::new(NthItem { text: texts[j].clone(), ranges: None })).is_some();
+                                if v != base[j] && bad.is_none() { bad = Some(j); } } }
+                            bad }) }).collect();
+                        hs.into_iter().filter_map(|h| h.join().ok().flatten()).next()
+                    });
+                    if let Some(j) = diverged { bad = Some((format!("query {:?}: the verdict on {:?} differs when eight threads share the engine (sequentially it {})", query, texts[j], if base[j] { "matches" } else { "does not match" }), None)); }
                 }
                 if focus == "C08" {
                     if let Some(m) = got {
